@@ -1013,18 +1013,28 @@ pub fn analyse_direct(case: &Case, out: &Outcome) -> Analysis {
 }
 
 // ------------------------------------------------------------------ self-play mode
-pub fn analyse_autoplay(_case: &Case, out: &Outcome) -> Analysis {
+pub fn analyse_autoplay(case: &Case, out: &Outcome) -> Analysis {
     let mut a = Analysis::default();
     let mut boards = 0u32;
     let mut last_fen: Option<String> = None;
+    let mut last_timer_exit_tp: Option<u64> = None;
+    let mut last_board_tp: u64 = 0;
     for e in &out.events {
         match &e.k {
+            EvK::Exit { .. } => {
+                // only the timer of the move in progress counts: the most recently started timer thread
+                let newest = out.threads.iter().rposition(|t| t.role == Role::Timer);
+                if Some(e.th) == newest {
+                    last_timer_exit_tp = Some(e.tp);
+                }
+            }
             EvK::Panic { msg, loc } => classify_panic(&mut a, msg, loc, boards, true),
             EvK::Out { line, .. } => {
                 for l in line.lines() {
                     if let Some(f) = l.strip_prefix("Fen: ") {
                         boards += 1;
                         last_fen = Some(f.to_string());
+                        last_board_tp = e.tp;
                     }
                 }
             }
@@ -1052,7 +1062,16 @@ pub fn analyse_autoplay(_case: &Case, out: &Outcome) -> Analysis {
                 }
             }
         }
-        Verdict::StepLimit | Verdict::PollLimit => a.inconclusive = a.viols.is_empty(),
+        Verdict::StepLimit | Verdict::PollLimit => {
+            // the move in progress: its timer has fired and exited, yet the search keeps polling
+            if let Some(tp) = last_timer_exit_tp {
+                let slack = 5 * (case.params.fair as u64 + 1) + 2;
+                if tp >= last_board_tp && out.polls > tp + slack {
+                    a.v("C13", "R3-late", boards, format!("self-play with {} ms per move: the timer of move {} fired and exited, the search ran {} more polls and the move was never made", case.autoplay_ms, boards, out.polls - tp));
+                }
+            }
+            a.inconclusive = a.viols.is_empty();
+        }
         Verdict::MainPanicked => {
             if !a.viols.iter().any(|v| v.rule == "R1-panic") {
                 a.v("C14", "R1-panic", boards, "self-play panicked".into());
